@@ -298,6 +298,45 @@ fn main() {
                 cl.close();
             }
         }
+        // mode change under a kept-alive connection: the connection served a request while the rules were disabled;
+        // the configuration under test is installed; the same denied request on the same connection is then judged
+        // (and recorded) under the configuration in force when it arrives
+        {
+            let c = &callers[1];
+            let raw = build_request("POST", URLS[0], &[("Host", b"h")], Some(b"body"), None);
+            for ep in [IMDS, WS, HOSTGA] {
+                w.set_rules(ep, policy("disabled", true).to_item());
+            }
+            w.rt.block_on(async { st_shared.clear_all_summary().await.unwrap() });
+            sport = if sport >= 35000 { 33000 } else { sport + 1 };
+            let mut cl = w.connect(Some(sport), Some(&AuditRec::to(c.dest, c.uid, c.pid, c.is_root))).unwrap();
+            let hi = [WS, HOSTGA, IMDS].iter().position(|d| *d == c.dest).unwrap();
+            cl.send(&raw).unwrap();
+            let first = cl.read_response(false, Duration::from_secs(10)).map(|m| m.status());
+            for ep in [IMDS, WS, HOSTGA] {
+                w.set_rules(ep, pol.to_item());
+            }
+            let cur = w.hosts.all()[hi].cursor();
+            let second = cl.send(&raw).map_err(|e| e.to_string()).and_then(|_| cl.read_response(false, Duration::from_secs(10)).map(|m| m.status()));
+            let upstream = w.hosts.all()[hi].requests_since(cur).len();
+            evals += 2;
+            let denied = !pol.disabled() && !pol.allows(c.user, URLS[0]);
+            let total: u64 = read_summary(&w).values().sum();
+            let case = json!({"mode": mode, "default_allow": default_allow, "family": "keep-alive-mode-change"});
+            if first != Ok(200) {
+                res.violation("keep-alive-mode-change:first-request", &format!("request under disabled rules got {:?}", first), case.clone());
+            }
+            if denied && pol.enforce() && (second != Ok(403) || upstream != 0) {
+                res.violation("enforce:denied-request-relayed:keep-alive-mode-change", &format!("a request the enforced rules deny, on a connection opened while the rules were disabled, got {:?} with {upstream} request(s) upstream", second), case.clone());
+            }
+            if denied && pol.audit() && (second != Ok(200) || upstream != 1) {
+                res.violation("audit:denied-request-not-relayed:keep-alive-mode-change", &format!("audit mode: {:?}, {upstream} upstream", second), case.clone());
+            }
+            if total != denied as u64 {
+                res.violation("summary:keep-alive-mode-change", &format!("the denial on a connection opened while the rules were disabled was recorded {total} times, expected {}", denied as u64), case.clone());
+            }
+            cl.close();
+        }
         // burst: many attributed connections, one denied request each, all sent before any response is read
         // (SAMPLED family: the server-side interleaving is whatever the runtime does)
         if pol.enforce() || pol.audit() {
@@ -349,7 +388,7 @@ fn main() {
     res.cov("histories", hist_n);
     res.cov("status_json_comparisons", status_json_checked);
     res.cov("exhaustive", true);
-    res.cov("rule", format!("every history of <= {max_len} requests over {{alice, bob -> IMDS; two elevated root processes -> WireServer, one of them also -> HostGAPlugin}} x 3 URLs (granted, matched-but-ungranted, unmatched) x {{host answers, host resets the connection}} (length-3 histories without the second root process), plus 5 identical denials, 6 denials on 3 concurrent keep-alive connections and a sampled burst of 250 (600) concurrent denied requests, under {} mode/default configurations; after every request the public failed-authorization summary is compared with the reference multiset (user, process path, command line, destination -> count); status.json of the real status task is compared for every 7th (quick: 37th) history and every 5-denial block; non-trivial = request the rules deny", configs.len()));
+    res.cov("rule", format!("every history of <= {max_len} requests over {{alice, bob -> IMDS; two elevated root processes -> WireServer, one of them also -> HostGAPlugin}} x 3 URLs (granted, matched-but-ungranted, unmatched) x {{host answers, host resets the connection}} (length-3 histories without the second root process), plus 5 identical denials, 6 denials on 3 concurrent keep-alive connections, a denied request on a connection that was opened (and served) while the rules were disabled, and a sampled burst of 250 (600) concurrent denied requests, under {} mode/default configurations; after every request the public failed-authorization summary is compared with the reference multiset (user, process path, command line, destination -> count); status.json of the real status task is compared for every 7th (quick: 37th) history and every 5-denial block; non-trivial = request the rules deny", configs.len()));
     res.assume("audit-mode denials are compared with the same request under an allowing rule set (status and what the host received, modulo date/MAC headers)");
     std::process::exit(res.finish());
 }
